@@ -1514,7 +1514,8 @@ class ISVMachine(FactorAnalysisBase):
 
     def transform(self, X):
         ubm_projected_X = self.ubm.acc_stats(X)
-        return self.estimate_ux(ubm_projected_X)
+        # estimate_ux expects the list of statistics of one probe
+        return self.estimate_ux([ubm_projected_X])
 
     def enroll(self, X):
         """
